@@ -33,11 +33,19 @@ static inline int32_t MakeRelative(int32_t Value, int32_t Reference, int32_t Max
 
 static struct utcp_channel* utcp_get_channel(struct utcp_connection* fd, struct utcp_bunch* utcp_bunch, bool bIncoming)
 {
-	if (utcp_bunch->bClose && utcp_bunch->ChIndex == 0)
+	return utcp_channels_get_channel(&fd->channels, utcp_bunch, bIncoming);
+}
+
+// A close takes effect when the bunch is sent, or when it is handed to the application in sequence.
+static void utcp_note_close(struct utcp_connection* fd, struct utcp_channel* utcp_channel, struct utcp_bunch* utcp_bunch)
+{
+	if (!utcp_bunch->bClose)
+		return;
+	if (utcp_bunch->ChIndex == 0)
 	{
 		utcp_mark_close(fd, ControlChannelClose);
 	}
-	return utcp_channels_get_channel(&fd->channels, utcp_bunch, bIncoming);
+	utcp_channels_mark_close(&fd->channels, utcp_channel, utcp_bunch);
 }
 
 // UChannel::ReceivedNextBunch
@@ -101,6 +109,7 @@ static bool ReceivedNextBunch(struct utcp_connection* fd, struct utcp_bunch_node
 		struct utcp_bunch* cur_utcp_bunch = HandleBunch[i];
 		utcp_log(Verbose, "[%s]received bunch, bOpen=%d, bClose=%d, NameIndex=%d, ChIndex=%d, NumBits=%d", fd->debug_name, cur_utcp_bunch->bOpen, cur_utcp_bunch->bClose,
 				 cur_utcp_bunch->NameIndex, cur_utcp_bunch->ChIndex, cur_utcp_bunch->DataBitsLen);
+		utcp_note_close(fd, utcp_channel, cur_utcp_bunch);
 	}
 
 	utcp_recv_bunch(fd, HandleBunch, HandleBunchCount);
@@ -482,6 +491,7 @@ int32_t SendRawBunch(struct utcp_connection* fd, struct utcp_bunch* bunch)
 	{
 		return -2;
 	}
+	utcp_note_close(fd, utcp_channel, bunch);
 
 	//  UChannel::PrepBunch
 	bunch->ChSequence = 0;
